@@ -261,6 +261,15 @@ def main():
                 if "project" in P:      # compare only the observables this property owns
                     a, b = P["project"](c, a), P["project"](c, b)
                 v, detail = wire.compare_lines(a, b, lm, P.get("tol"), P.get("float_value_eq", False))
+                # per-configuration exemption with a bound (C19: powf under libm / micromath): inside the bound = agreement
+                if v in ("hard", "soft") and "config_tol" in P:
+                    ct = P["config_tol"](cname, c)
+                    if ct == "skip":
+                        v, detail = "drift", "exempt in this configuration"
+                    elif ct is not None:
+                        v2, d2 = wire.compare_lines(a, b, lm, ct, True)
+                        if v2 in ("same", "soft"):
+                            v, detail = "same", None
             if v == "same":
                 if len(corr["samples"]) < 6 and (k % max(1, len(lines) // 6) == 0):
                     corr["samples"].append({"case": c[:300], "impl": a[:300], "model": b[:300], "config": cname})
